@@ -271,6 +271,118 @@ def h_worker_task_failure(i):
             "expected": {"worker_died_with": None, "answers_for_task_7": 1}}
 
 
+# ---------------------------------------------------------------- C11: the tracker's step
+def _clean(s_, default):
+    if not isinstance(s_, str):
+        return default
+    s_ = "".join(ch for ch in s_ if 32 < ord(ch) < 127 and ch != ":")
+    return s_ or default
+
+
+def h_tracker_step(i):
+    """The request read off the counter-model, then (the model of an abstracted VC does not fix the name) the same
+    request with names containing ':'; reproduced as soon as one of them violates the reference step."""
+    if i.get("__enumerate__"):
+        # no model (the solver could not decide): a small native search over requests
+        tried = []
+        for cmd in ("REGISTER", "UNREGISTER", "MAYBE_UNLINK", "PROBE", "BOGUS"):
+            for nm in ("plain", "a:b", "dir:x:1"):
+                for pre in (0, 1, 2):
+                    for rt_ in ("file", "folder", "nosuchtype"):
+                        r = _tracker_step_once({"nfields": 3, "cmd": cmd, "rtype": rt_, "name": nm, "pre_count": pre})
+                        tried.append(r.get("line"))
+                        if r.get("reproduced"):
+                            r["search"] = f"{len(tried)} requests tried"
+                            return r
+        return {"reproduced": False, "search": f"{len(tried)} requests tried, none violates the reference step"}
+    tried = []
+    for nm in (i.get("name"), "a:b", "dir:x:1"):
+        j = dict(i)
+        j["name"] = nm
+        if nm is not i.get("name"):
+            j["nfields"] = max(3, i.get("nfields", 3) if isinstance(i.get("nfields"), int) else 3)
+        r = _tracker_step_once(j)
+        tried.append(r.get("line"))
+        if r.get("reproduced"):
+            r["tried"] = tried
+            return r
+    r["tried"] = tried
+    return r
+
+
+def _tracker_step_once(i):
+    """Feed REGISTER x pre_count lines and then the offending request to the REAL main() (in a subprocess, cleanup
+    functions replaced by recorders) and compare with the reference step of the property."""
+    import subprocess
+    import textwrap
+    nfields = i.get("nfields", 3)
+    if not isinstance(nfields, int) or nfields < 1:
+        nfields = 3
+    cmd = _clean(i.get("cmd"), "REGISTER")
+    rtype = _clean(i.get("rtype"), "file")
+    name = i.get("name") if isinstance(i.get("name"), str) else "n"
+    name = "".join(ch for ch in name if 32 < ord(ch) < 127) or "n"
+    if nfields == 1:
+        line, name_seen = cmd, None
+    elif nfields == 2:
+        line, name_seen = f"{cmd}:{rtype}", ""
+    else:
+        if nfields > 3 and ":" not in name:
+            name = name + ":x"
+        line, name_seen = f"{cmd}:{name}:{rtype}", name
+    pre = i.get("pre_count", 0)
+    if not isinstance(pre, int) or pre < 0 or pre > 5:
+        pre = 1
+    known = rtype in ("folder", "file", "semlock")
+    setup = [f"REGISTER:{name_seen}:{rtype}"] * pre if (known and name_seen is not None and nfields >= 3) else []
+    # reference step
+    valid3 = nfields >= 3
+    exp_report, exp_cleanup, exp_count = 1, [], (pre if setup else 0)
+    if valid3 and cmd == "PROBE":
+        exp_report = 0
+    elif valid3 and known and cmd == "REGISTER":
+        exp_report, exp_count = 0, exp_count + 1
+    elif valid3 and known and cmd == "UNREGISTER" and exp_count > 0:
+        exp_report, exp_count = 0, 0
+    elif valid3 and known and cmd == "MAYBE_UNLINK" and exp_count > 0:
+        exp_report = 0
+        exp_count -= 1
+        if exp_count == 0:
+            exp_cleanup = [[rtype, name_seen]]
+    prog = textwrap.dedent("""\
+        import os, sys, json
+        sys.path.insert(0, %r)
+        import loky.backend.resource_tracker as rt
+        calls = []
+        for t in list(rt._CLEANUP_FUNCS):
+            rt._CLEANUP_FUNCS[t] = (lambda t: (lambda n: calls.append([t, n])))(t)
+        reports = []
+        sys.excepthook = lambda *a: reports.append(a[0].__name__)
+        import warnings; warnings.simplefilter("ignore")
+        r, w = os.pipe()
+        lines = %r
+        os.write(w, (chr(10).join(lines) + chr(10)).encode("ascii"))
+        mark = len(lines) - 1
+        os.close(w)
+        out_fd = os.dup(1)        # main() closes sys.stdout
+        rt.main(r)
+        os.write(out_fd, (json.dumps({"calls": calls, "reports": reports}) + chr(10)).encode())
+    """) % (sys.argv[3] if len(sys.argv) > 3 else "/repo", setup + [line])
+    p = subprocess.run([sys.executable, "-c", prog], capture_output=True, text=True, timeout=60)
+    try:
+        obs = json.loads([l for l in p.stdout.splitlines() if l.startswith("{")][-1])
+    except Exception:
+        return {"reproduced": False, "error": (p.stderr or p.stdout)[-600:]}
+    # everything still counted is destroyed at end of life: separate the step's cleanup from the sweep
+    step_calls = obs["calls"]
+    leftover = [[rtype, name_seen]] * (1 if exp_count > 0 else 0)
+    expected_calls = exp_cleanup + leftover
+    ok = (len(obs["reports"]) == exp_report) and (sorted(map(tuple, step_calls)) == sorted(map(tuple, expected_calls)))
+    return {"reproduced": not ok, "line": line, "setup": setup,
+            "observed": {"reported": len(obs["reports"]), "cleanups_incl_final_sweep": step_calls},
+            "expected": {"reported": exp_report, "cleanups_incl_final_sweep": expected_calls}}
+
+
 def main():
     name, inputs, repo = sys.argv[1], json.loads(sys.argv[2]), sys.argv[3]
     sys.path.insert(0, repo)
